@@ -137,8 +137,8 @@ PROPS = {
                    {"group": "sess", "quick_cases": 600, "thorough_cases": 20000}],
         "rule": "sched case: as for C11 - 2-4 tasks on one real session under the controlled scheduler - with a termination cause in half of the cases: EOF, read error or Alert fed to the receive loop, the transport refusing writes from the k-th write on (k = 0..3, i.e. failing at any piece of a padded multi-piece write, while other tasks hold or queue for either lock), close() as an operation of a task; injected at a random position of the schedule (fixed: at each of the first 4 / 7 scheduling decisions of 8 canonical scenarios, every pick sequence); "
                 "sess case: sequential histories on one session with close / eof / rderr / budget ops at every frame boundary and inside frames (byte-level feeds), followed by writes, opens and reads; non-trivial as in the groups; distinct by SHA-1 of the op lines",
-        "level_text": "kernel-checked theorems over the interleaving model M13, for ANY number of tasks, every interleaving at the granularity of single accesses to shared state, every combination of causes (close() calls, the receive loop calling close() at any moment, transport writes failing at any piece of any write): the lock state is always consistent with the tasks' states - holders, FIFO queues, no duplicates (LockInv, preserved by every action) - and from it: as long as any task is unfinished some task can take a step, i.e. no task ever waits for a lock whose holder waits for it or for itself (no_deadlock: the D8 self-deadlock is impossible); the closed flag is final (closed_forever); a closed session whose close() has finished has shut its transport down (closed_then_shut); the drain step closes every stream in the table and resolves its pending open (drain_releases; readers then reach end of stream by C01); an open_stream on a closed session fails at once, a write_frame that obtains the buffer lock on a closed session returns the error and writes nothing (later_open_fails, later_write_fails); a failed transport write closes the session (failed_write_closes, failure_closes). Tied to the code by the sched differential run (task status after every scheduling decision, incl. 'blocked') and the sess run",
-        "level_note": "PARTIAL on 'never blocks forever': deadlock freedom is proved for every reachable state; that every schedule terminates (a bound on the number of steps) is not yet a theorem - it is checked on the implementation under the virtual watchdog (every task must be done after the drain; a task left 'blocked' or parked is a violation). A transport whose write neither completes nor fails (stalled peer) holds the writer lock indefinitely and close() waits behind it for its 1 s shutdown timeout: outside the model (the model's transport answers every write), explored by the e2e stall scenarios of C08. Trusted: Lean kernel, harness+driver glue, placement of the scheduling points, tokio Mutex = FIFO hand-off",
+        "level_text": "kernel-checked theorems over the interleaving model M13, for ANY number of tasks, every interleaving at the granularity of single accesses to shared state, every combination of causes (close() calls, the receive loop calling close() at any moment, transport writes failing at any piece of any write): the lock state is always consistent with the tasks' states - holders, FIFO queues, no duplicates (LockInv, preserved by every action) - and from it: as long as any task is unfinished some task can take a step, i.e. no task ever waits for a lock whose holder waits for it or for itself (no_deadlock: the D8 self-deadlock is impossible); the closed flag is final (closed_forever); a closed session whose close() has finished has shut its transport down (closed_then_shut); the drain step closes every stream in the table and resolves its pending open (drain_releases; readers then reach end of stream by C01); an open_stream on a closed session fails at once, a write_frame that obtains the buffer lock on a closed session returns the error and writes nothing (later_open_fails, later_write_fails); a failed transport write closes the session (failed_write_closes, failure_closes); every schedule is finite (every_schedule_is_bounded: a cost that every action of every task strictly decreases) and a run that cannot continue has finished every task (stuck_means_finished). Tied to the code by the sched differential run (task status after every scheduling decision, incl. 'blocked') and the sess run",
+        "level_note": "'never blocks forever' is two theorems: no_deadlock (every reachable state with an unfinished task has an enabled action) and every_schedule_is_bounded (under every interleaving, without any fairness assumption, at most totalCost further actions can be taken), hence stuck_means_finished. Outside the model: a transport whose write neither completes nor fails (stalled peer) holds the writer lock indefinitely and close() waits behind it for its 1 s shutdown timeout (the model's transport answers every write; explored by the e2e stall scenarios of C08); the receive loop's own writes (SYNACK, HeartResponse) are further tasks of the same kind. Trusted: Lean kernel, harness+driver glue, placement of the scheduling points, tokio Mutex = FIFO hand-off",
         "assumptions": COMMON_ASSUMPTIONS,
         "explanation": "interleaving model theorems (lock invariant, deadlock freedom, close post-conditions) + sched/sess correspondence",
     },
